@@ -146,7 +146,7 @@ def expmv(f, v, t=1., tol=1e-12, ncv=10, hermitian=False, normalize=False, retur
         else:
             tau_opt = tau * (omega / gamma) ** (-1. / order) if omega > 0 else t_out - t_now
             ncv_opt = int(max([1, np.ceil(m + np.log(omega / gamma) / np.log(ncv_est))])) if omega > 0 else 1
-            C1 = ncv * int(np.ceil((t_out - t_now) / tau_opt))
+            C1 = ncv * np.ceil((t_out - t_now) / tau_opt) if tau_opt > 0 else np.inf  # tau_opt may underflow for a huge error estimate
             C2 = ncv_opt * int(np.ceil((t_out - t_now) / tau))
             tau_new, ncv_new = (tau_opt, m) if C1 < C2 else (tau, ncv_opt)
 
